@@ -30,7 +30,61 @@ CHECKS.update({
    note="Trusted as for C15. The constructor clause is proved only for the profile-dependent lookups; the rest is tested on the implementation. Implementation-side 'never hangs' is a 20 s per-case budget.",
    technique="Coq proof over a hand model (outcome type with every exception explicit) + differential correspondence + implementation-side oracles", ref="DESIGN.md §6 C16"),
 })
-NOT_YET = {}
+CHECKS.update({
+ 'C01': dict(
+   text="Whole-run Coq theorem (every rule, arithmetic, profile, fuel; axiom-free): a count that ends normally leaves no candidate hopeful -- everyone is elected, defeated or withdrawn (Hoare logic over the rule command trees: every exit passes a settling micro-operation). Termination within budget, winners = min(seats, electable) and 'withdrawn untouched' are decided by full-outcome correspondence (model vs code) plus the C01 oracle on every generated election; the crash outcomes of meek/warren under guarded arithmetic are reproduced inside Coq (refuted Example) and listed as open findings K2/K3.",
+   note="Trusted: Coq kernel, hand model of the 8 rule modules tied by trace correspondence, extraction, harness. Termination and seat count are _partial (oracle + correspondence, CPU budget for rational Meek).",
+   technique="Coq Hoare-logic proof over a hand model + differential correspondence + oracle", ref="DESIGN.md §6 C01"),
+ 'C02': dict(
+   text="Coq theorems per micro-operation for Fixed/integer/Guarded (one law record, Proofs/Zlike.v): a transferred ballot is credited exactly once at unchanged weight; re-weighted ballots of a candidate are worth at most the surplus (no votes created) and each loses < 2 units; a Meek/Warren distribution conserves votes exactly. Lifting to every action of every count: values-scope correspondence + conservation oracle (sum <= ballots, shortfall <= 2 ulp x ballots x transfers, exact under rational, non-negativity, QPQ contributions).",
+   note="Per-operation theorems (_partial): the whole-run invariant 'tally = sum of ballot values' is an open obligation. Rational arithmetic is covered by the oracle only.",
+   technique="Coq proof per micro-operation over a hand model + differential correspondence + oracle", ref="DESIGN.md §6 C02"),
+ 'C03': dict(
+   text="The Coq model of each statutory rule is the published procedure written as a command tree over the proved decimal arithmetic; the ENTIRE stage-by-stage trace of the implementation (actions, messages, quota, every tally to the last digit, every ballot weight) must equal it on every generated election; clause theorems (quota A.1/46, transfer values B.3+D.4/48(3), lowest candidate, tie-break) are proved for the statutory parameters; wigm(fixed,4) vs wigm-prf histories are compared directly.",
+   note="The procedure text itself is transcribed by hand into the model (reviewable against the '##' comments); a disagreement is reported with the first differing stage as the failing history.",
+   technique="Coq clause theorems + full-trace differential correspondence", ref="DESIGN.md §6 C03"),
+ 'C04': dict(
+   text="Coq theorems: the quota each rule's calcQuota computes is the prescribed one for Fixed/integer/Guarded (floor(n*S/(s+1))+1 raw units; (floor(n/(s+1))+1) whole votes for Scottish/Minneapolis/integer_quota; Meek family from the votes still credited). 'Whoever reaches it is elected, never excluded while holding it': quota-scope correspondence + oracle on near-quota elections.",
+   note="Election-on-quota clause is _partial (oracle + correspondence). Rational: oracle only.",
+   technique="Coq proof of quota formulas + differential correspondence + oracle", ref="DESIGN.md §6 C04"),
+ 'C05': dict(
+   text="No general theorem (coalition invariant not attempted); machine-checked: the property is false of the faithful model for Warren (refuted Example evaluated inside Coq, open finding K4). Decided otherwise by the exhaustive coalition oracle (every subset S and k on every generated election of <= 9 candidates) and final-scope correspondence.",
+   note="_partial: oracle + correspondence; the refutation is a Coq evaluation of the model on the witness.",
+   technique="Coq refutation by evaluation + exhaustive-coalition oracle + differential correspondence", ref="DESIGN.md §6 C05"),
+ 'C06': dict(
+   text="Coq theorems per micro-operation: transfer value = the prescribed truncated quotient (two truncations; Scottish one), between 0 and the old value, never rounded up, loses < 2 units; transfer() leaves a ballot with the first continuing candidate of its ranking at unchanged weight and credits exactly its value. Every ballot's index and raw weight at every action is compared with the model (ballots scope) and checked by the P1/P3/P4 oracle.",
+   note="Per-operation theorems (_partial for the whole-run invariant).",
+   technique="Coq proof per micro-operation + ballot-level differential correspondence + oracle", ref="DESIGN.md §6 C06"),
+ 'C07': dict(
+   text="Coq theorems per micro-operation: candidates offered for single exclusion are exactly the hopefuls at the minimum tally; breakTie picks among the tied, silently for one, else logs exactly one tie action naming set and choice; py_sort returns a permutation for any (even non-transitive) comparison. Batches, largest-surplus-first, Scottish prior stage, tie-order independence: oracle (incl. re-running under a permuted tie order) + values-scope correspondence.",
+   note="_partial for whole-run and for batches; Guarded fuzzy comparisons covered by correspondence only.",
+   technique="Coq proof per micro-operation + differential correspondence + metamorphic oracle", ref="DESIGN.md §6 C07"),
+ 'C08': dict(
+   text="Coq theorems: a Meek/Warren/meek-prf distribution over strict ballots credits candidates + residual with exactly the ballots' multipliers (per ballot and over all ballots). kf ranges are false for the current code: reproduced inside Coq (kf = 1.2 at precision 1; open findings K1, K5). Exits, equal rankings, kf ranges elsewhere: values-scope correspondence + oracle.",
+   note="_partial; K1/K5 open findings.",
+   technique="Coq proof per micro-operation + refutation by evaluation + differential correspondence + oracle", ref="DESIGN.md §6 C08"),
+ 'C09': dict(
+   text="Whole-run Coq theorem (all rules, arithmetics, profiles, fuel): round numbers in the record never decrease and every recorded round lies between 0 and the current round (monotone-history preorder lifted by exec_steps). Status transitions and seat bounds: states-scope correspondence + transition oracle on every pair of consecutive snapshots.",
+   note="Transition/seat clauses _partial (oracle + correspondence); their whole-run theorem is an open obligation.",
+   technique="Coq whole-run proof (monotone history) + differential correspondence + oracle", ref="DESIGN.md §6 C09"),
+ 'C10': dict(
+   text="Coq: two texts laying out the same tokens with any Unicode whitespace/line breaks parse to the same result (corollary of the C15 tokenizer theorems; comments via the C15 comment lemmas), and the count is a function of the profile. Line order / multiplier split-merge / nicknames: metamorphic oracle (re-presented file must give byte-identical record, report, dump) + full-trace correspondence. Open finding K7 (Guarded statistics in the report depend on multipliers).",
+   note="_partial: the bag-equality simulation is an open obligation.",
+   technique="Coq proof (layout) + metamorphic oracle + differential correspondence", ref="DESIGN.md §6 C10"),
+ 'C11': dict(
+   text="Coq: accepted profiles contain no withdrawn candidate in any ranking; withdrawn candidates start Withdrawn and are never among the hopefuls at the start. Renumbering equivariance and 'withdrawn == deleted': metamorphic oracle on every generated election + values-scope correspondence.",
+   note="_partial: the equivariance simulations are open obligations.",
+   technique="Coq supporting lemmas + metamorphic oracle + differential correspondence", ref="DESIGN.md §6 C11"),
+ 'C18': dict(
+   text="Coq model of report(), dump() and json() (exact text, incl. JSON escaping) with theorems: dump rows of non-round/log/iterate actions have the header's width and carry the record's codes and str(tally); the JSON tree carries the record's tags, quotas, totals and per-candidate state/code/vote; report blocks list exactly the snapshot's candidates by status; dump and JSON agree. Renderings are compared byte for byte with the implementation; audit-trail oracle (first/last action, elect/defeat vs status changes, final step) on the implementation. Open finding K8 (3-cell dump rows).",
+   note="Whole-run audit-trail clauses are oracle + correspondence (_partial).",
+   technique="Coq proof over a hand model of the renderers + byte-exact differential correspondence + oracles", ref="DESIGN.md §6 C18"),
+ 'C19': dict(
+   text="Coq: every micro-operation of every rule only appends to the action list; an interrupted run (same command tree over (budget,state), aborting when the budget is spent) ends, for every interruption point, fuel, rule, arithmetic and profile, in a state whose actions are a prefix of the uninterrupted run's (generic theorem + instance). Python-level delivery: KeyboardInterrupt injected with sys.settrace at line events of package code; report/dump/json(intr=True) must succeed, be marked once, JSON valid, actions a prefix.",
+   note="_partial: interrupts inside C-level calls / between bytecodes are covered only at line granularity by the driver.",
+   technique="Coq whole-run proof (prefix property) + fault injection at every line event", ref="DESIGN.md §6 C19"),
+})
+NOT_YET = {'C17': "options model and C17 theorems are being merged (builder agent); the whole-count immunity harness exists (props/c17_counts.py)"}
 def main():
     props = [json.loads(l) for l in open(os.path.join(V, 'properties.jsonl'))]
     checks = []
